@@ -1,13 +1,29 @@
 use crate::engine::PropertyDef;
 use crate::fuzzglue::FuzzDef;
 
+pub mod c01;
+pub mod c04;
 pub mod c05;
+pub mod c08;
+pub mod c09;
+pub mod c11;
 pub mod c13;
+pub mod c14;
+pub mod c15;
+pub mod c20;
 
 pub fn registry() -> Vec<PropertyDef> {
   vec![
+    PropertyDef { id: "C01", run: c01::run, replay: c01::replay },
+    PropertyDef { id: "C04", run: c04::run, replay: c04::replay },
     PropertyDef { id: "C05", run: c05::run, replay: c05::replay },
+    PropertyDef { id: "C08", run: c08::run, replay: c08::replay },
+    PropertyDef { id: "C09", run: c09::run, replay: c09::replay },
+    PropertyDef { id: "C11", run: c11::run, replay: c11::replay },
     PropertyDef { id: "C13", run: c13::run, replay: c13::replay },
+    PropertyDef { id: "C14", run: c14::run, replay: c14::replay },
+    PropertyDef { id: "C15", run: c15::run, replay: c15::replay },
+    PropertyDef { id: "C20", run: c20::run, replay: c20::replay },
   ]
 }
 
